@@ -26,6 +26,7 @@ SPECS.append({
   H("C06", DB, "Select6", "both", ["checked"], "6 terms (1 symbolic), cap any int", "first four retained, subset, no duplicates"),
   H("C06", DB, "Select12", "both", ["checked"], "12 terms (2 symbolic), cap any int", "same, above the default cap of 10"),
   H("C06", DB, "Superset3Q", "both", ["checked", "nonempty"], "3 concrete commands x 3 shapes; 1-2 symbolic query words", "NLP-off results are NLP-on candidates"),
+  H("C06", DB, "SupersetAction", "both", ["checked", "nonempty"], "5 commands whose descriptions share the action words list / show; symbolic 4-letter first word, optional second word", "action words typed by the user that occur in most commands"),
   H("C06", DB, "Superset3Q3", "thorough", ["checked", "nonempty"], "3 semi-concrete commands; 1-3 query words", "same"),
  ],
  "manifest": {"text": "Bounded symbolic model checking of the NLP expansion pipeline: words are solver variables compared against every table word of their length; prefix / no-duplicate / retention / superset contracts asserted on every path.",
@@ -65,6 +66,7 @@ SPECS.append({
   H("C04", DB, "NLP", "both", ["checked", "nonempty"], "same with UseNLP", "NLP path gate"),
   H("C04", DB, "Fuzzy", "both", ["checked", "nonempty"], "typo fallback on 'a'+symbolic letter", "fallback gate (platform + pipeline)"),
   H("C04", DB, "LegacyPipeline", "both", ["checked"], "legacy pipeline search", "pipeline-only gate"),
+  H("C04", DB, "Cached", "both", ["checked", "nonempty"], "two requests through the cache layer (cached or monitored entry point); first: 2 flags, second: all 2^3 flags x 4 platform lists", "a cached answer passes the filter of the request it answers"),
   H("C04", DB, "LexicalTag", "thorough", ["checked", "nonempty"], "one command with a symbolic 5-letter mixed-case platform tag", "alias table / case-insensitivity"),
  ],
  "manifest": {"text": "Bounded symbolic model checking of the platform / pipeline gate on every search path with all filter options as solver variables and an eligibility oracle spelled from the property.",
@@ -83,6 +85,7 @@ SPECS.append({
   H("C07", DB, "OnlyFallbackNLP", "both", ["lexical-answer", "no-lexical-answer"], "same with UseNLP", "same"),
   H("C07", DB, "OnlyFallbackExpansion", "both", ["lexical-answer", "no-lexical-answer"], "8 commands named like hint targets; symbolic 4-letter query word (+ optional second word), NLP on", "answers that exist only through NLP expansion are not overridden either"),
   H("C07", DB, "FallbackLongText", "both", ["fallback", "fallback-nonempty"], "a 132-character command text; 2 symbolic query letters; threshold 0 / -1000", "a genuine match with a very low raw score is still returned"),
+  H("C07", DB, "FallbackCase", "both", ["fallback", "fallback-nonempty"], "4 commands with camelCase / plain texts, lower-case caches filled or not; 4 queries", "results scored on the command's own text (reference: the real matcher on that text); completeness"),
   H("C07", DB, "Matcher23", "both", ["matched", "unmatched"], "pattern 1-2, target 0-3 symbolic ASCII bytes", "match <=> in-order occurrence; index sanity"),
   H("C07", DB, "Matcher24", "thorough", ["matched", "unmatched"], "pattern 1-2, target 0-4 symbolic ASCII bytes", "same"),
   H("C07", DB, "Fallback3", "both", ["fallback", "fallback-nonempty"], "3 commands with long words, 2 symbolic query letters, threshold any int", "genuine matches, threshold, order, completeness"),
@@ -129,6 +132,8 @@ SPECS.append({
   H("C16", "internal/history", "Step2", "both", ["stepped", "roundtrip"], "max_size 1..2, 0..max stored entries, one AddEntry, save+load", "reference-log step + round trip", synctest=True),
   H("C16", "internal/history", "Step3", "thorough", ["stepped", "roundtrip"], "max_size 1..3", "same", synctest=True),
   H("C16", "internal/history", "Views2", "both", ["views"], "0..2 entries, limit 0..n+1", "recent / top / stats agree with the entries", synctest=True),
+  H("C16", "internal/history", "ReloadOther", "both", ["roundtrip"], "an instance holding 0-2 entries loads a file saved (or cleared) by another instance holding 0-2", "a loaded instance holds what the file holds (omitempty-style absent keys included)", synctest=True),
+  H("C16", "internal/history", "Views5", "both", ["views"], "4-5 entries over 3 concrete queries, limit 0..n+1", "non-adjacent repeats; distinct queries further back than the newest limit entries", synctest=True),
   H("C16", "internal/history", "Views3", "thorough", ["views"], "3 entries", "same", synctest=True),
  ],
  "manifest": {"text": "Bounded symbolic model checking of the history log: arbitrary file documents (max_size any integer), an inductive AddEntry step against a reference log, persistence round trip, and the derived views.",
@@ -137,6 +142,12 @@ SPECS.append({
 
 SPECS.append({
  "property_id": "C09", "level": "model_checking",
+ "reach_obligations": [
+  {"pkg": "internal/cli", "root": "saveToPersonalDatabase", "must_not_reach": ["os.OpenFile", "os.WriteFile", "os.Create", "os.Truncate"], "except_through": ["utils.WriteFileAtomic"],
+   "msg": "the notebook is written only through utils.WriteFileAtomic (the file-system model treats documents as opaque tokens, so an in-place append of serialised text cannot be explored; it is excluded structurally)"},
+  {"pkg": "internal/history", "root": "(*SearchHistory).Save", "must_not_reach": ["os.OpenFile", "os.WriteFile", "os.Create", "os.Truncate"], "except_through": ["utils.WriteFileAtomic"],
+   "msg": "the history file is written only through utils.WriteFileAtomic"},
+ ],
  "explanation": "The crash point is a solver variable: the engine's file-system model lets the next write stop after k bytes (k any non-negative integer) either by returning an error (disk full, quota) or by killing the process; rename is atomic. After the event the live file is loaded through the real loaders and must hold exactly the previous or exactly the new entries; a save that reports success must have taken effect. Counterexamples are replayed natively with RLIMIT_FSIZE cutting the real write.",
  "assumptions": ["file-system model: while the fault lasts no file can grow beyond k bytes (any k >= 0), a cut write leaves the prefix and either returns an error or kills the process; os.Rename within a directory is atomic; os.OpenFile / (*os.File).Write honour O_TRUNC / O_APPEND / O_EXCL; a torn or mixed document does not decode to the old or new content", "yaml / json encoders are opaque documents (round-trip identity)"],
  "stubs": ["file-system model with write plans", "yaml / json stubs"],
@@ -204,6 +215,7 @@ SPECS.append({
   H("C20", DB, "EndToEnd5NLP", "thorough", ["compared", "nonempty"], "2+2 letters, NLP", "same"),
   H("C20", DB, "Sentence", "both", ["stages"], "2 sentences of 28-35 letters with context clues, every case mask (one mask bit per letter)", "context-clue detection ignores case"),
   H("C20", DB, "StopWords", "both", ["compared", "nonempty"], "command texts with capitalised stop words; 2 sentences, every case mask; NLP re-ranking", "TF-IDF side ignores case"),
+  H("C20", "internal/validation", "WhitespaceUnicode", "both", ["compared"], "two 1-byte words; leading / interior / trailing runs from 7 white-space strings incl. U+00A0, U+3000, U+2003", "Unicode white space is white space"),
   H("C20", "internal/validation", "Whitespace", "both", ["compared"], "two words of printable non-meta ASCII; pads of 0-2 symbolic whitespace bytes", "padding never changes the searched query"),
  ],
  "manifest": {"text": "Relational bounded symbolic model checking: the query and an arbitrary case re-spelling share one symbolic byte vector (mask bits), compared at every consumer of the query and end to end.",
@@ -220,6 +232,7 @@ SPECS.append({
  "harnesses": [
   H("C02", DB, "Ties3", "both", ["compared", "nonempty"], "3 commands (2 identical), symbolic query word, limit 1..2, maps <=3 entries in all orders", "repeated SearchUniversal"),
   H("C02", DB, "Ties3NLP", "both", ["compared", "nonempty"], "same with UseNLP", "repeated SearchUniversal (NLP)"),
+  H("C02", DB, "ThreeTerms", "both", ["compared", "nonempty"], "3 commands (2 matching), 3-4 word queries whose words all hit one command; second run with maps <= 3 entries in every order", "three-term score sums independent of any map order", maporder=3),
   H("C02", DB, "Ties5", "thorough", ["compared", "nonempty"], "5 commands, maps <=4 entries", "repeated SearchUniversal"),
   H("C02", DB, "Reload", "both", ["compared"], "two independently built databases, NLP on", "re-loading the same content"),
   H("C02", DB, "Suggestions", "both", ["compared"], "3-word candidate set, all orders", "did-you-mean reproducibility"),
@@ -240,6 +253,8 @@ SPECS.append({
  "harnesses": [
   H("C05", DB, "Delta", "both", ["searched", "done"], "2 requests; 6 symbolic flags x 2 limits; 14 one-field deltas (incl. pipeline boost, fuzzy threshold, boost values); 4x4 query variants", "requests that differ in anything that changes the answer never share an entry", synctest=True),
   H("C05", DB, "PairsMonitored", "both", ["searched", "done"], "2 requests through the monitoring wrapper; 6 option sets x 5 queries each", "monitored wrapper's own projection", synctest=True),
+  H("C05", DB, "MonitoredReload", "both", ["searched", "done"], "search (3 entry points); replace through LoadDatabaseWithMonitoring or UpdateDatabase; search", "no cached answer survives a replacement made through the monitoring entry point", synctest=True),
+  H("C05", "internal/cache", "SmallCache", "both", ["hit", "miss", "done"], "SearchCache of capacity 1-2; 5 steps of put / get over 3 requests", "an answer found is the one last stored for that very request (eviction churn)"),
   H("C05", DB, "OffOn", "both", ["searched", "done"], "search; optionally disable; replace / invalidate / nothing; optionally search while off; enable; search", "no entry outlives a replacement made while the cache is off (also C01 on the cached path)", synctest=True),
   H("C05", DB, "Hist3", "thorough", ["searched", "done"], "search, one of 6 operations, search", "no entry outlives invalidation / replacement; disabled cache is bypassed", synctest=True),
  ],
@@ -284,6 +299,7 @@ SPECS.append({
   H("C18", "internal/metrics", "Monitor", "both", ["monitored"], "0-2 searches, 0-2 database operations, flags symbolic", "totals equal events"),
   H("C18", "internal/metrics", "Monitor3", "thorough", ["monitored"], "3 + 3 events", "same"),
   H("C18", "internal/metrics", "MonitorSameIdentity", "both", ["monitored"], "same (operation, success) twice, every tag order", "one identity, one series"),
+  H("C18", DB, "MonitoredSearches", "both", ["monitored"], "1-3 searches through either monitored entry point, 3 queries (repeats hit the cache)", "search total = number of searches", synctest=True),
   H("C18", "internal/metrics", "CollectorLocks", "both", ["called"], "get-or-create of 4 metric kinds, GetAllMetrics; one call from an arbitrary warm / cold registry", "lock discipline of the registry (get-or-create re-validates under the write lock): obligation for every schedule, no native replay", panic_freedom=True),
   H("C18", "internal/metrics", "CounterAtomic", "both", ["called"], "8 methods of Counter / Gauge", "counter words touched only through sync/atomic", panic_freedom=True),
   H("C18", "internal/metrics", "HistogramLocks", "both", ["called"], "5 methods", "histogram fields only under its mutex", panic_freedom=True),
